@@ -137,13 +137,27 @@ def plugins_of(doc):
     return PLUGIN_LISTS[(sum(map(ord, doc)) // 3) % len(PLUGIN_LISTS)]
 
 
-def observe_html(m, doc):
-    md = m.create_markdown(plugins=plugins_of(doc))
-    if sum(map(ord, doc)) % 3 == 0:
-        # a TOC hook parses heading texts once more, before the inline pass of the document: numbering must not notice
-        from mistune.toc import add_toc_hook
-        add_toc_hook(md, 1, 6)
-    out = md(doc)
+def cli_html(doc, plugins):
+    """the same conversion through the command line tool: python -m mistune -p <plugins>, document on standard input"""
+    import subprocess
+    from common import PY, impl_env
+    p = subprocess.run([PY, "-m", "mistune", "-p"] + list(plugins), env=impl_env({"PYTHONIOENCODING": "utf-8"}), timeout=120, input=doc,
+                       stdout=subprocess.PIPE, stderr=subprocess.PIPE, text=True, encoding="utf-8")
+    if p.returncode != 0:
+        raise RuntimeError("python -m mistune exited with %s: %s" % (p.returncode, p.stderr[-300:]))
+    return p.stdout[:-1] if p.stdout.endswith("\n") else p.stdout     # (the tool prints the result and a newline)
+
+
+def observe_html(m, doc, cli=False):
+    if cli:
+        out = cli_html(doc, plugins_of(doc))
+    else:
+        md = m.create_markdown(plugins=plugins_of(doc))
+        if sum(map(ord, doc)) % 3 == 0:
+            # a TOC hook parses heading texts once more, before the inline pass of the document: numbering must not notice
+            from mistune.toc import add_toc_hook
+            add_toc_hook(md, 1, 6)
+        out = md(doc)
     sec = out.count('<section class="footnotes">')
     body, _, tail = out.partition('<section class="footnotes">')
     refs = []
@@ -210,11 +224,11 @@ def correspondence(ctx):
             "samples": [json.dumps(cases[0]["doc"])]}
 
 
-def check_case(m, c, fails):
+def check_case(m, c, fails, cli=False):
     """C14 stated directly on the output, independent of the model"""
     keyf = m.unikey
     try:
-        oh = observe_html(m, c["doc"])
+        oh = observe_html(m, c["doc"], cli)
         oa = observe_ast(m, c["doc"])
     except Exception as e:  # noqa
         fails.append({"input": c, "kind": "exception", "got": "%s: %s" % (type(e).__name__, e)})
@@ -228,7 +242,7 @@ def check_case(m, c, fails):
     n = len(order)
 
     def bad(kind, **kw):
-        d = {"input": c, "kind": kind, "html": oh["out"]}
+        d = {"input": c, "kind": kind, "html": oh["out"], "through": "python -m mistune -p " + " ".join(plugins_of(c["doc"])) if cli else "create_markdown"}
         d.update(kw)
         fails.append(d)
     if len(oh["refs"]) != len(hist):
@@ -271,9 +285,14 @@ def oracle(ctx, extra):
     fails = []
     cases = [e for e in extra if isinstance(e, dict) and "doc" in e] + [gen_case(r) for _ in range(ctx.n(1500, 40000))]
     n = 0
-    for c in cases:
+    ncli = 0
+    for i, c in enumerate(cases):
         n += 1
         check_case(m, c, fails)
+        if i % ctx.n(60, 200) == 7 and c["doc"].strip():
+            # the command line tool builds its converter from the same plugin names: the notes it prints obey the same rules
+            ncli += 1
+            check_case(m, c, fails, cli=True)
         if len(fails) >= 5:
             break
     return {"evaluations": n, "distinct_nontrivial": len({c["doc"] for c in cases[:n] if c["hist"] and c["defs"]}),
@@ -281,7 +300,7 @@ def oracle(ctx, extra):
             "rule": "abstract history (0-9 references to defined/undefined keys, case/space variants of labels) + definition "
                     "set (single/multi-paragraph, continuation lines, duplicates, unreferenced, before/after the body) "
                     "printed as a document with references in paragraphs, quotes, lists, tables, emphasis, strong, link "
-                    "text, headings, nested containers; half of the definitions that follow a paragraph follow it without a blank line; converted with six plugin lists (footnotes first, last, in the middle; with and without speedup, url, task_lists, def_list, abbr); every clause of C14 checked on the HTML and on the token list; "
+                    "text, headings, nested containers; half of the definitions that follow a paragraph follow it without a blank line; converted with six plugin lists (footnotes first, last, in the middle; with and without speedup, url, task_lists, def_list, abbr); every clause of C14 checked on the HTML and on the token list, and for a sample of the documents on what python -m mistune -p <the same plugins> prints; "
                     "non-trivial = has at least one definition and one reference; distinct by document text",
             "samples": [json.dumps(cases[0]["doc"]), json.dumps(cases[1]["hist"])]}
 
